@@ -24,6 +24,8 @@ def run(chk):
     chk.rule("ZERASE.z-only-function", "functions that exist only under USINGZ assign only z members / locals and call only the Z callbacks")
     chk.rule("Z.must-follow", "IntersectEdges: every AddOutPt / AddLocalMinPoly / AddLocalMaxPoly / StartOpenPath result is captured and "
              "reaches SetZ(e1, e2, V->pt) on every path to an exit (callback installed; null results exempt)")
+    chk.rule("ZCB.rebound", "ClipperD: after CheckCallback the engine's proxy callback is set iff the user's Z callback is set, whatever it was before "
+             "(4 cells); every Execute overload calls CheckCallback before ExecuteInternal")
     chk.rule("Z.split", "DoSplitOp: zCallback_ is invoked on ip before ip is stored into an OutPt")
     chk.rule("Z.setz-table", "SetZ: ip equal to an end point takes its z (subject edge first), else DefaultZ; callback gets subject before clip")
     for b, z in pairs:
@@ -32,6 +34,7 @@ def run(chk):
         e7.rule_mustfollow(dz, chk, z)
         e7.rule_split(dz, chk, z)
         e7.rule_setz_table(dz, chk, z)
+        e7.rule_zcb_rebound(dz, chk, z)
     n = len(pairs)
     chk.floor("ZERASE", 450 * n)
     chk.floor("ZERASE.z-only-function", 6 * n)
